@@ -85,8 +85,16 @@ def wire_leaves():
     ).map(list)
 
 
+# peer-controlled names that are hostile to string templating / logging / formatting
+HOSTILE_KEYS = ['{}', '{0}', '{1}', '{x}', '{!r}', '{0.real}', '{0[0]}', '{:d}', 'a{}b',
+                '{', '}', '{{}}', '%s', '%d', '%(a)s', '%', '%%', '${x}', '$x', '\\',
+                '\\x', '\\N{x}', '\n', '\x00', "'", '"', '%s%s%s', '{}{}', '\ud7ff',
+                '__class__', '{self}', '{key}', '{error}', '{value}']
+
+
 def wire_keys():
     return st.one_of(S.table_keys(), S.shortstrs(255), st.just(''),
+                     st.sampled_from(HOSTILE_KEYS),
                      st.text(st.characters(min_codepoint=0x61, max_codepoint=0x7a),
                              min_size=1, max_size=4))
 
@@ -113,11 +121,20 @@ def deep_wire_values(max_depth=64):
         for kind, key in reversed(layers):
             v = ['A', [v]] if kind == 'A' else ['F', [[key, v]]]
         return v
-    return st.builds(build,
-                     st.lists(st.tuples(st.sampled_from('AF'),
-                                        st.sampled_from(['', 'k', 'key'])),
-                              min_size=1, max_size=max_depth),
-                     wire_leaves())
+    layer = st.tuples(st.sampled_from('AF'), st.sampled_from(['', 'k', 'key']))
+    # draw the depth explicitly: st.lists(max_size=N) alone almost never gets long
+    layers = st.integers(1, max_depth).flatmap(
+        lambda d: st.lists(layer, min_size=d, max_size=d))
+    return st.builds(build, layers, wire_leaves())
+
+
+def chain(depth, pattern, leaf):
+    """deterministic chain: pattern 'A', 'F' or 'AF' (alternating), `depth` containers"""
+    v = leaf
+    for i in range(depth):
+        kind = pattern[(depth - 1 - i) % len(pattern)]
+        v = ['A', [v]] if kind == 'A' else ['F', [['k', v]]]
+    return v
 
 
 # ------------------------------------------------------------------ rendering
